@@ -35,6 +35,21 @@ UNIT = dict(
         "AimdBudgetBuilder::withdraw_amount": dict(rules=MUT),
         "AimdBudgetBuilder::decrease_factor": dict(rules=MUT),
         "AimdBudgetBuilder::build": dict(),
+        "AimdBuilder::default@Default": dict(file="alg"),
+        "AimdBuilder::build": dict(file="alg"),
+        "VegasBuilder::default@Default": dict(file="alg"),
+        "VegasBuilder::build": dict(file="alg"),
+        "AimdBuilder::initial_limit": dict(file="alg", rules=MUT),
+        "AimdBuilder::min_limit": dict(file="alg", rules=MUT),
+        "AimdBuilder::max_limit": dict(file="alg", rules=MUT),
+        "AimdBuilder::increase_by": dict(file="alg", rules=MUT),
+        "AimdBuilder::decrease_factor": dict(file="alg", rules=MUT),
+        "AimdBuilder::latency_threshold": dict(file="alg", rules=MUT),
+        "VegasBuilder::initial_limit": dict(file="alg", rules=MUT),
+        "VegasBuilder::min_limit": dict(file="alg", rules=MUT),
+        "VegasBuilder::max_limit": dict(file="alg", rules=MUT),
+        "VegasBuilder::alpha": dict(file="alg", rules=MUT),
+        "VegasBuilder::beta": dict(file="alg", rules=MUT),
         "AimdConfig::default@Default": dict(file="aimd"),
         "AimdConfig::new": dict(file="aimd"),
         "AimdConfig::with_initial_limit": dict(file="aimd", rules=MUT),
@@ -112,6 +127,7 @@ UNIT = dict(
         ("struct", "AimdController", "aimd"),
         ("struct", "TokenBucketBudget", "budget", {"extra": ["initial"]}),
         ("struct", "AimdBudget", "budget", {"extra": ["initial"]}),
+        ("struct", "AimdBuilder", "alg"), ("struct", "VegasBuilder", "alg"),
         ("struct", "TokenBucketBuilder", "budget"), ("struct", "AimdBudgetBuilder", "budget"),
     ],
 )
